@@ -616,6 +616,8 @@ def explore(ctx, run, max_paths=4000):
         except BaseException as e:  # the outcome of this path is an exception
             if isinstance(e, (KeyboardInterrupt, SystemExit, MemoryError)):
                 raise
+            if not isinstance(e, Exception) and type(e).__name__ != "PathTimeout":
+                raise
             exc = e
         yield list(ctx.path), list(ctx.pc_desc), out, exc
         npaths += 1
